@@ -20,7 +20,7 @@ class Prop(PropBase):
     lean_targets = ["PbProps.C03"]
     theorems = ["Pb.C03." + t for t in ("C03_shift_theorem", "C03_ramp", "C03_tone", "C03_tone_spectrum", "C03_zero_fill",
                                         "C03_zero_counts", "C03_every_element", "C03_full_shift", "C03_crop_eq", "C03_source_loop")]
-    trusted_base = ["PbModel/Shift.lean + Crop.lean (hand models)", "numpy.fft complex128 oracle; NumPy broadcasting"]
+    trusted_base = ["pbverif/extract.py: symbolic evaluation of the method bodies into PbModel/Gen/Shift.lean (trusted to render the source expressions faithfully; tied to the hand model by the C03_source_* theorem)", "PbModel/Shift.lean + Crop.lean (hand models)", "numpy.fft complex128 oracle; NumPy broadcasting"]
     assumptions = ["0 < |s| <= 1e-8 excluded (the code's allclose early return); finite shifts"]
     rule = ("N in {1,2,3,5,7,8,16,17,31,64,96,1023}; real/complex x 32/64-bit; sample shapes up to rank 3; every shift-array "
             "shape that broadcasts (0-d, full, missing trailing axes, length-1 axes), time Quantities; shifts from "
